@@ -435,6 +435,34 @@ impl<'a> Cx<'a> {
                         let n = self.cfg_input(&m.mac);
                         Ok(pure(n, LT::Bool))
                     }
+                    "vec" => {
+                        // `vec![elem; n]`: n copies of a plain value
+                        let parser = |input: syn::parse::ParseStream| -> syn::Result<(Expr, Expr)> {
+                            let a: Expr = input.parse()?;
+                            input.parse::<syn::Token![;]>()?;
+                            let b: Expr = input.parse()?;
+                            Ok((a, b))
+                        };
+                        let (elem, n) = match syn::parse::Parser::parse2(parser, m.mac.tokens.clone()) {
+                            Ok(x) => x,
+                            Err(_) => return self.un("macro `vec!` other than `vec![elem; n]` not modelled"),
+                        };
+                        let et = match want {
+                            Some(LT::List(t)) => (**t).clone(),
+                            _ => return self.un("`vec![elem; n]` without a known element type"),
+                        };
+                        let e = self.expr(&elem, Some(&et))?;
+                        if e.ty != et {
+                            return self.un(format!("`vec![elem; n]`: element has modelled type {:?}, expected {:?}", e.ty, et));
+                        }
+                        let k = self.expr(&n, Some(&LT::I("usize")))?;
+                        if k.ty != LT::I("usize") {
+                            return self.un("`vec![elem; n]`: n is not a usize");
+                        }
+                        let mut pre = e.pre;
+                        pre.extend(k.pre);
+                        Ok(Tx { pre, term: format!("(List.replicate ({}).toNat {})", k.term, e.term), ty: LT::List(Box::new(et)) })
+                    }
                     other => self.un(format!("macro `{}!` in expression position not modelled", other)),
                 }
             }
@@ -673,11 +701,16 @@ impl<'a> Cx<'a> {
             _ => {
                 let key = fname.rsplit("::").next().unwrap().to_string();
                 if let Some(sig) = self.callees.get(&key).cloned() {
-                    if !sig.plain || sig.params.len() != args.len() {
+                    if !(sig.plain || sig.fuel_plain) || sig.params.len() != args.len() {
                         return self.un(format!("call of translated function `{}` with places/effects or arity mismatch", fname));
                     }
                     let mut pre = Vec::new();
                     let mut terms = Vec::new();
+                    if sig.fuel_plain {
+                        // the callee's `loop` bound is handed on: this function takes one too
+                        self.loop_fuel = true;
+                        terms.push("fuel_".to_string());
+                    }
                     for (a, t) in args.iter().zip(sig.params.iter()) {
                         let x = self.expr(a, Some(t))?;
                         if x.ty != *t {
@@ -898,6 +931,19 @@ impl<'a> Cx<'a> {
                 term: format!("(Rs.enumerate {})", recv.term),
                 ty: LT::List(Box::new(LT::Tup(vec![LT::I("usize"), *t]))),
             }),
+            // `ObjString::as_str` (its body, re-read on every run, must be `self.string.as_str()`): the text field of the record
+            ("as_str", 0, LT::Rec(rn, fs)) if rn == "ObjString" && self.method_body_of("ObjString", "as_str").as_deref() == Some("{self.string.as_str()}") => {
+                let k = fs.iter().position(|(n, _)| n == "string").unwrap();
+                let mut term = recv.term.clone();
+                for _ in 0..k {
+                    term = format!("{}.2", term);
+                }
+                if k + 1 < fs.len() {
+                    term = format!("{}.1", term);
+                }
+                Ok(Tx { pre: recv.pre, term: format!("({})", term), ty: LT::Str })
+            }
+            ("as_str", 0, LT::Str) => Ok(recv),
             ("is_none", 0, LT::Opt(_)) => Ok(Tx { pre: recv.pre, term: format!("({}).isNone", recv.term), ty: LT::Bool }),
             ("is_some", 0, LT::Opt(_)) => Ok(Tx { pre: recv.pre, term: format!("({}).isSome", recv.term), ty: LT::Bool }),
             ("has_catch_block", 0, LT::Handler) if self.callees.contains_key("handler::has_catch_block") => {
